@@ -50,6 +50,14 @@ def _hooks(ex, S, ghost, setlocale_may_fail=True):
 
     def acquire(ex, node, a, kw):
         # the lock is re-entrant (RLock): the ghost counter is the number of acquisitions by this thread
+        cur = z3.simplify(ghost.fields['lock'].t)
+        if z3.is_int_value(cur) and cur.as_long() == 0:
+            # interference: while this thread waited for the lock, the thread that held it may have switched LC_COLLATE.  The locale "found" by
+            # the manager is the one in force when the lock is obtained, so anything read before this point is stale.
+            n['k'] += 1
+            fresh = VStr(ex.fresh(f'loc_at_acquire{n["k"]}', z3.StringSort()))
+            ghost.fields['loc'] = fresh
+            ghost.fields['loc0'] = fresh
         ghost.fields['lock'] = VInt(ghost.fields['lock'].t + 1)
         return VBool(True)
 
@@ -380,7 +388,9 @@ def state_preservation(tier, seed):
     docs = ['<!DOCTYPE r [<!ENTITY e "x">]><r>&e;</r>', '<!DOCTYPE r [<!ENTITY e SYSTEM "file:///etc/passwd">]><r>&e;</r>',
             '<!DOCTYPE r [<!ENTITY % p "<!ELEMENT r (#PCDATA)>"> %p;]><r>text</r>', '<!DOCTYPE r [<!ENTITY % p SYSTEM "http://x/y.dtd"> %p;]><r/>',
             '<!DOCTYPE r [<!ENTITY e "x"><!ENTITY f "&e;&e;">]><r>&f;</r>', '<!DOCTYPE r [<!ENTITY u SYSTEM "u.gif" NDATA gif>]><r/>',
-            '<!DOCTYPE r SYSTEM "http://x/r.dtd"><r/>']
+            '<!DOCTYPE r SYSTEM "http://x/r.dtd"><r/>',
+            '<?xml version="1.0"?><!DOCTYPE r [<!ENTITY e "x">]><r>&e;</r>', '<!--c--><!DOCTYPE r [<!ENTITY e "x">]><r a="&e;"/>',
+            '<?pi d?>\n<!DOCTYPE r [<!ENTITY e "x">]><r>&e;</r>', '<?xml version="1.0" encoding="utf-8"?>\n<!-- c -->\n<!DOCTYPE r [<!ENTITY e SYSTEM "file:///etc/hostname">]><r>&e;</r>']
     for d in docs:
         for fnname in ('parse-xml', 'parse-xml-fragment'):
             n += 1
@@ -433,8 +443,10 @@ def state_preservation(tier, seed):
     threads = [threading.Thread(target=worker, args=(i,), daemon=True) for i in range(len(exprs)) for _ in range(2)]
     for t in threads:
         t.start()
+    import time as _time
+    deadline = _time.time() + 60
     for t in threads:
-        t.join(60)
+        t.join(max(0.0, deadline - _time.time()))
         if t.is_alive():
             bad('concurrent selectors do not complete', expr='(thread still running after 60 s)')
             break
@@ -448,11 +460,16 @@ def state_preservation(tier, seed):
 
 
 def _result(fam, n):
+    if _lock_held():
+        # harness hygiene, after the leak has been recorded above: a lock left held by a finished thread would block every later check that this
+        # worker process runs (the pool re-uses processes), turning one violation into a hang of the whole run
+        fam.setdefault('the collation lock is still held when the check ends', []).append({'note': 'the lock object is replaced for the rest of this process'})
+        collations._locale_collate_lock = threading.RLock()
     fails = [{'key': k, 'items': it[:4], 'count': len(it), 'what': f'{k}: e.g. {it[0]}'} for k, it in fam.items()]
     return {'evaluations': n, 'distinct': n, 'exhaustive': False,
             'scope': f'{len(STATE_EXPRS)} collation / decimal / environment expressions under each installable LC_COLLATE of (C, C.UTF-8, POSIX): snapshot of LC_COLLATE, '
             'LC_CTYPE, the collation lock, the decimal context and os.environ before and after, completion within 20 s, same answer when repeated; environment gating '
-            'through 11 call forms; 7 DOCTYPE documents x parse-xml / parse-xml-fragment; Unicode category probes after 9 character-class histories; 20 threads of '
+            'through 11 call forms; 11 DOCTYPE documents (4 with an XML declaration, comment or processing instruction before the DOCTYPE) x parse-xml / parse-xml-fragment; Unicode category probes after 9 character-class histories; 20 threads of '
             'independent selectors against the sequential results', 'failures': fails}
 
 
